@@ -479,7 +479,64 @@ def w1_list_reductions(ctx: Ctx):
         ctx.check(good, BACK, f, f'_FPCoreCompileInstance.{m}', f'variadic {m[7:]} folds its arguments from the left', 'changed')
 
 
+def w2_comparisons_and_positions(ctx: Ctx):
+    """(a) A chain `a op b op c` is the conjunction of its links.  FPCore's comparison operators are n-ary; for <, <=, >,
+    >= and == the n-ary form is that conjunction, for != it is "pairwise distinct".  The writer's `_visit_compare` is
+    evaluated, from its source, on every chain of up to three links over {<, ==, !=}; the links it emits must be exactly
+    the adjacent pairs, and an n-ary call may carry more than two operands only for an operator whose n-ary meaning is
+    the chain.  The reader must not read an n-ary != as a chain.  (b) `(ref t i j)` indexes the outer dimension first:
+    the index list of a destructured field is the position of the tuple followed by the field's own index."""
+    from itertools import product
+
+    from ..minipy import Interp, Obj
+    cls = ctx.repo.cls(BACK, '_FPCoreCompileInstance')
+    methods = {f.name: f for f in cls.body if isinstance(f, ast.FunctionDef)}
+    fn = methods['_visit_compare']
+    n = 0
+    bad = None
+    for k in (1, 2, 3):
+        for ops in product(('LT', 'EQ', 'NE'), repeat=k):
+            e = Obj('Compare', ops=[('enum', 'CompareOp', o) for o in ops], args=[f'x{i}' for i in range(k + 1)])
+            it = Interp({}, methods=methods, overrides={
+                'self._visit_expr': lambda x, c: x, 'self._check_comparable': lambda e: None,
+                'self._compile_compareop': lambda op: (lambda *a, op=op: ('cmp', op[2], tuple(a))), 'fpc.And': lambda *a: ('and', tuple(a))}, self_obj=Obj('X'))
+            got = it.call_function(fn, [e, None], bound_self=True)
+            calls = list(got[1]) if got[0] == 'and' else [got]
+            links = set()
+            for _, op, args in calls:
+                if len(args) > 2 and op == 'NE' and bad is None:
+                    bad = f'chain {" ".join(ops)}: emits an n-ary != over {len(args)} operands, which FPCore reads as pairwise distinct'
+                links |= {(op, a, b) for a, b in zip(args, args[1:])}
+            want = {(op, f'x{i}', f'x{i + 1}') for i, op in enumerate(ops)}
+            n += 1
+            if links != want and bad is None:
+                bad = f'chain {" ".join(ops)}: emitted links {sorted(links)}, the chain says {sorted(want)}'
+    ctx.check(bad is None, BACK, fn, '_FPCoreCompileInstance._visit_compare', f'a comparison chain is emitted as exactly its links; only chain-meaning operators go n-ary ({n} chains)', bad or '')
+    rd = ctx.fn(FRONT, '_FPCore2FPy._visit_nary')
+    arm = None
+    for m in [x for x in ast.walk(rd) if isinstance(x, ast.Match)]:
+        for cs in m.cases:
+            if isinstance(cs.pattern, ast.MatchClass) and dotted(cs.pattern.cls) == 'fpc.NEQ':
+                arm = cs
+    if arm is None:
+        raise ShapeError('reader: fpc.NEQ arm not found')
+    chains = [k for k in ast.walk(arm) if isinstance(k, ast.Call) and call_name(k) == 'Compare' and k.args and not (isinstance(k.args[0], ast.List) and len(k.args[0].elts) == 1)]
+    two_only = [s for s in arm.body if isinstance(s, ast.If) and 'len(' in norm(s.test) and '== 2' in norm(s.test)]
+    ok = not chains or all(any(k is x for s in two_only for x in ast.walk(s)) for k in chains)
+    ctx.check(ok, FRONT, arm.pattern, '_FPCore2FPy._visit_nary', 'an n-ary != is not read as a chain (a chain would accept a == c)', 'reads `(!= a b c)` as `a != b != c`')
+    tb = ctx.fn(BACK, '_FPCoreCompileInstance._compile_tuple_binding')
+    lists = [s.value for s in ast.walk(tb) if isinstance(s, ast.Assign) and norm(s.targets[0]) == 'idxs']
+    ok = len(lists) >= 1 and all(isinstance(v, ast.List) and len(v.elts) == 2 and isinstance(v.elts[0], ast.Starred) and norm(v.elts[0].value) == 'pos'
+                                 and norm(v.elts[1]) == 'fpc.Integer(i)' for v in lists)
+    ctx.check(ok, BACK, tb, '_FPCoreCompileInstance._compile_tuple_binding', 'the index list of a field is the position of its tuple followed by the field index (outermost first)',
+              f'index lists {[norm(v) for v in lists]}: `for a, b in zip(xs, ys)` reads (ref t 0 i) where element i, field 0 is (ref t i 0)')
+    t = norm(tb, 4000)
+    ctx.check('fpc.Ref(fpc.Var(tuple_id), *idxs)' in t and 'self._compile_tuple_binding(tuple_id, elt, idxs)' in t, BACK, tb, '_FPCoreCompileInstance._compile_tuple_binding',
+              'a nested pattern extends the position of its parent', 'changed')
+
+
 RULES = [
+    Rule('C12.W2', 'writer: comparison chains keep their meaning (no n-ary !=); tuple positions are indexed outermost first; reader: n-ary != is not a chain', w2_comparisons_and_positions, 4, 'T,F'),
     Rule('C12.W1', 'writer: list reductions fold from element 0 in index order, accumulator on the left (the interpreter\'s order)', w1_list_reductions, 9, 'F'),
     Rule('C12.R2', 'reader: in a parallel binding form every bound value is read under the entry scope; only starred forms thread the bindings', r2_parallel_bindings, 6, 'F'),
     Rule('C12.F1', 'writer: a `!` annotation covers the body of its with-block only', f1_annotation_scope, 2, 'F'),
@@ -492,6 +549,12 @@ RULES = [
 from ..selftest import Mutant  # noqa: E402
 
 MUTANTS = [
+    Mutant('chain-of-ne-goes-n-ary', BACK, "                    if op == prev_op and op is not CompareOp.NE:", "                    if op == prev_op:", 'C12.W2',
+           'finding F50 before its repair: x != y != z is True for (1, 2, 1) and the core says False'),
+    Mutant('chain-loses-a-link', BACK, "                        groups.append((op, [prev_args[-1], rhs]))", "                        groups.append((op, [prev_args[0], rhs]))", 'C12.W2'),
+    Mutant('reader-n-ary-ne-is-a-chain', FRONT, "                if len(exprs) == 2:\n                    return Compare([CompareOp.NE], exprs, None)", "                if len(exprs) >= 2:\n                    return Compare([CompareOp.NE for _ in exprs[1:]], exprs, None)", 'C12.W2'),
+    Mutant('tuple-field-indexed-innermost-first', BACK, "                    idxs = [*pos, fpc.Integer(i)]\n                    tuple_bind =", "                    idxs = [fpc.Integer(i), *pos]\n                    tuple_bind =", 'C12.W2',
+           'finding F49 before its repair: [a - b for a, b in zip(xs, ys)] reads (ref t 0 i)'),
     Mutant('reduction-seeded-with-the-last-element', BACK, "                    fpc.Ref(fpc.Var(tuple_id), fpc.Integer(0)),\n                    combine(fpc.Var(accum_id), fpc.Ref(fpc.Var(tuple_id), next_idx))",
            "                    fpc.Ref(fpc.Var(tuple_id), fpc.Ctx(idx_ctx, fpc.Sub(_size0_expr(tuple_id), fpc.Integer(1)))),\n                    combine(fpc.Var(accum_id), fpc.Ref(fpc.Var(tuple_id), fpc.Var(iter_id)))", 'C12.W1',
            'seeded change C12c: sum([1e16, 1, -1e16, 1]) is 0 in the compiled core'),
